@@ -1437,3 +1437,102 @@ func ruleWriteNil(rule string) ruleFn {
 		}
 	}
 }
+
+// ---------------------------------------------------------------------------
+// *-DECODE: a reply that could not be decoded is not a reply
+// ---------------------------------------------------------------------------
+
+func ruleDecodeChecked(rule string) ruleFn {
+	return func(c *Ctx) {
+		c.Doc(rule, "REST clients of this module (replica/client, controller/client, backend/remote): when the JSON document of a reply cannot be decoded - any error of (*json.Decoder).Decode / json.Unmarshal, a type mismatch of one field included - the request fails; no success return is reachable from the failure edge of the decode (a field that is skipped keeps its zero value: revision counter 0, empty chain, state \"\")")
+		n := 0
+		for _, pkg := range []string{"replica/client", "controller/client", "backend/remote"} {
+			for _, fn := range pkgFuncs(c.P, pkg) {
+				if errResultIndex(fn) < 0 {
+					continue
+				}
+				for _, in := range CallsTo(fn, "(*encoding/json.Decoder).Decode", "encoding/json.Unmarshal") {
+					cl, ok := in.(*ssa.Call)
+					if !ok {
+						continue
+					}
+					ev := errOfCall(cl)
+					if ev == nil {
+						continue
+					}
+					n++
+					key := FnName(fn) + " | undecodable reply fails the request"
+					// an error that is never nil-tested has to be what every later return hands back
+					isNil, _ := nilTestEdges(fn, ev)
+					tested := false
+					for _, b := range fn.Blocks {
+						for k := range b.Succs {
+							if isNil(b, k) {
+								tested = true
+							}
+						}
+					}
+					if !tested {
+						bad := false
+						ei := errResultIndex(fn)
+						for _, w := range reachableFrom(in, func(x ssa.Instruction) bool { _, ok := x.(*ssa.Return); return ok }) {
+							r := w.Site.(*ssa.Return)
+							if ei < len(r.Results) && strip(r.Results[ei]) != strip(ev) {
+								bad = true
+								c.Bad(rule, key, c.P.InstrPos(r), "the decode error is neither tested for nil nor returned here: "+NewRenderer(fn).V(r.Results[ei])+" is returned instead", nil)
+							}
+						}
+						if !bad {
+							c.OK(rule, key, c.P.InstrPos(in), "decode error is returned as it is", true)
+						}
+						continue
+					}
+					if ws := failureReachesSuccess(fn, cl, ev); len(ws) > 0 {
+						c.Bad(rule, key, c.P.InstrPos(in), "a success return is reachable although the reply could not be decoded", c.witness(ws[0]))
+					} else {
+						c.OK(rule, key, c.P.InstrPos(in), "decode error is returned", true)
+					}
+				}
+			}
+		}
+		if n < 4 {
+			c.Undecided(rule, "vacuity-floor", "", fmt.Sprintf("only %d decode sites found", n))
+		}
+	}
+}
+
+// ---------------------------------------------------------------------------
+// C14-POLLFAIL: a failed request of the replica client is not repeated for ever
+// ---------------------------------------------------------------------------
+
+func rulePollFail(rule string) ruleFn {
+	return func(c *Ctx) {
+		c.Doc(rule, "replica/client: from the failure edge of a get / post there is no path back to the same request without a return: a failed status poll of the sync agent ends the wait with an error (SendFile and the coalesce run inside controller operations that hold the controller lock - an agent that died would be polled for ever)")
+		n := 0
+		for _, fn := range pkgFuncs(c.P, "replica/client") {
+			for _, in := range CallsTo(fn, "(*replica/client.ReplicaClient).get", "(*replica/client.ReplicaClient).post") {
+				cl, ok := in.(*ssa.Call)
+				if !ok || !inLoop(cl.Block()) {
+					continue
+				}
+				ev := errOfCall(cl)
+				if ev == nil {
+					continue
+				}
+				n++
+				isNil, _ := nilTestEdges(fn, ev)
+				// the request is issued again only after its error was found nil
+				ws := Query{Fn: fn, Start: in, GenEdge: isNil, IsSite: func(x ssa.Instruction) bool { return x == in }}.Run()
+				key := FnName(fn) + " | a failed request is not repeated"
+				if len(ws) == 0 {
+					c.OK(rule, key, c.P.InstrPos(in), "the failure edge leads to a return", true)
+				} else {
+					c.Bad(rule, key, c.P.InstrPos(in), "after a failure the same request is issued again without any bound", c.witness(ws[0]))
+				}
+			}
+		}
+		if n < 2 {
+			c.Undecided(rule, "vacuity-floor", "", fmt.Sprintf("only %d polling loops found", n))
+		}
+	}
+}
